@@ -174,13 +174,13 @@ func DecodeFile(r io.Reader, options ...Option) (*File, error) {
 LoopBoxes:
 	for {
 		var box Box
-		var extraHdr uint64 // Header bytes in the input that are not part of box.Size()
+		var inputSize uint64 // Number of bytes the box occupies in the input
 		var err error
 		switch f.fileDecMode {
 		case DecModeLazyMdat:
-			box, extraHdr, err = decodeBoxLazyMdatAndExtraHdr(boxStartPos, rs)
+			box, inputSize, err = decodeBoxLazyMdatAndInputSize(boxStartPos, rs)
 		case DecModeNormal:
-			box, extraHdr, err = decodeBoxAndExtraHdr(boxStartPos, r)
+			box, inputSize, err = decodeBoxAndInputSize(boxStartPos, r)
 		default:
 			return nil, fmt.Errorf("unknown DecFileMode=%d", f.fileDecMode)
 		}
@@ -190,7 +190,7 @@ LoopBoxes:
 		if err != nil {
 			return nil, err
 		}
-		boxType, boxSize := box.Type(), box.Size()
+		boxType := box.Type()
 		switch boxType {
 		case "mdat":
 			if f.isFragmented {
@@ -236,7 +236,7 @@ LoopBoxes:
 		}
 		f.AddChild(box, boxStartPos)
 		lastBoxType = boxType
-		boxStartPos += boxSize + extraHdr
+		boxStartPos += inputSize
 	}
 	f.tfra = nil // Not needed anymore
 	return f, nil
